@@ -25,6 +25,11 @@ ASSUMPTIONS = [
     "inversion identity checked where well conditioned: budget >= 1e-5 x (largest |U| met on the path, for "
     "Lennard-Jones also the prefactor), tolerance 1e-6 x budget + 1e-11 x that scale; totality and sign for every "
     "positive budget (2^-1074 .. 2^200 x scale)",
+    "sign: a returned distance is 'negative beyond rounding' if < -1e-7 x length scale; for a start that binary64 "
+    "cannot tell from a turning point of the path (energy difference <= 1e-11 x scale) if < -(1e-5 x length scale + "
+    "3 x distance to that turning point)",
+    "hard cores: contact equation evaluated in exact rational arithmetic, residual <= 1e-9 x (|s|^2 + R^2), closest "
+    "approach known to 1e-9 x |s|/|v|; grazing passes (|discriminant| <= 1e-9 x scale) accept either outcome",
     "theorems are about the real-number reading of the model; binary64 totality is explored by the run, not proved",
 ]
 TRUSTED = ["Lean native Float + libm pow/sqrt (the driver's model runs on the same libm as CPython and the compiled C)",
@@ -756,7 +761,8 @@ def oracle_soft(ctx, case, out):
             except (ValueError, ZeroDivisionError, OverflowError):
                 deg = []
             if deg:
-                negtol += 3 * max(abs(b) for b in deg)
+                # ... and to the square root of the energy rounding level (flat energy at a turning point)
+                negtol += 3 * max(abs(b) for b in deg) + 1e-5 * lenscale
                 ctx.count(f"oracle:{k}:negative-within-degenerate-start")
         if x < -negtol:
             report(ctx, f"{sig0}:negative", jcase(case), f"displacement {x!r} is negative beyond rounding")
